@@ -1010,8 +1010,10 @@ def translate(ll_text, roots, stubs=(), allow_aborts=(), ub=False, src_name='<ir
         C.append('static %s vp_gsnap_%d;' % (ct, k))
     C.append('#ifdef __CPROVER__')
     C.append('void vp_globals_snapshot(void) { %s }' % ' '.join('vp_gsnap_%d = %s;' % (k, cname(n)) for k, n in enumerate(mg)))
+    # the first 320 bytes of each object are compared by straight-line code (independent of any unwinding bound); a loop only for what lies beyond
     C.append('int vp_globals_unchanged(void) { int ok = 1; %s return ok; }' % ' '.join(
-        '{ const unsigned char *a_ = (const unsigned char *)&vp_gsnap_%d, *b_ = (const unsigned char *)&%s; for (unsigned i_ = 0; i_ < sizeof(vp_gsnap_%d); i_++) if (a_[i_] != b_[i_]) ok = 0; }' % (k, cname(n), k) for k, n in enumerate(mg)))
+        '{ const unsigned char *a_ = (const unsigned char *)&vp_gsnap_%d, *b_ = (const unsigned char *)&%s; %s for (unsigned i_ = 320; i_ < sizeof(vp_gsnap_%d); i_++) if (a_[i_] != b_[i_]) ok = 0; }'
+        % (k, cname(n), ' '.join('if (%d < sizeof(vp_gsnap_%d) && a_[%d] != b_[%d]) ok = 0;' % (i, k, i, i) for i in range(320)), k) for k, n in enumerate(mg)))
     C.append('#endif')
     C.append('\n\n'.join(fn_c))
     E.info['_mg'] = mg
@@ -1019,7 +1021,9 @@ def translate(ll_text, roots, stubs=(), allow_aborts=(), ub=False, src_name='<ir
     mg = E.info.pop('_mg', [])
     nat = ('static const char *const vp_mg_names[] = { %s 0 }; static const unsigned vp_mg_sizes[] = { %s 0 };\n' % (
                ''.join('"%s", ' % n for n in mg), ''.join('sizeof(%s), ' % (E.cty(m.globals[n][0]) if not isinstance(E.resolve(m.globals[n][0]), OpaqueT) else 'char') for n in mg)) +
-           '#define vp_globals_snapshot() ((void)vp_nat_globals(vp_mg_names, vp_mg_sizes, %d, 0))\n#define vp_globals_unchanged() vp_nat_globals(vp_mg_names, vp_mg_sizes, %d, 1)\n#define vp_n_mutable_globals %d' % (len(mg), len(mg), len(mg)))
+           '/* taking a snapshot also arms the hook that re-takes it at the end of every ABI-guarded one-time initialisation (native_common.c interposes __cxa_guard_release) */\n'
+           'extern void (*vp_nat_guard_hook)(void);\nstatic void vp_k_resnap(void) { (void)vp_nat_globals(vp_mg_names, vp_mg_sizes, %d, 0); }\n'
+           '#define vp_globals_snapshot() (vp_nat_guard_hook = vp_k_resnap, (void)vp_nat_globals(vp_mg_names, vp_mg_sizes, %d, 0))\n#define vp_globals_unchanged() vp_nat_globals(vp_mg_names, vp_mg_sizes, %d, 1)\n#define vp_n_mutable_globals %d' % (len(mg), len(mg), len(mg), len(mg)))
     H.extend(['#ifdef __CPROVER__', 'void vp_globals_snapshot(void); int vp_globals_unchanged(void); extern const int vp_n_mutable_globals;', '#else',
               'int vp_nat_globals(const char *const *names, const unsigned *sizes, int n, int mode);', nat, '#endif'])
     htext = '\n'.join(H) + '\n'
